@@ -23,6 +23,8 @@ def main(argv=None):
     s.add_argument("-j", type=int, default=16)
     sd = sub.add_parser("seeds")
     sd.add_argument("prop", nargs="?")
+    bn = sub.add_parser("benign")
+    bn.add_argument("props", nargs="*")
     args = ap.parse_args(argv)
     from . import core
     if args.cmd == "check":
@@ -60,6 +62,10 @@ def main(argv=None):
     if args.cmd == "seeds":
         from . import seeds
         res, fails = seeds.run(args.prop)
+        return 2 if fails else 0
+    if args.cmd == "benign":
+        from . import seeds
+        res, fails = seeds.run_benign(args.props or None)
         return 2 if fails else 0
     if args.cmd == "selftest":
         from . import selftest
